@@ -1551,13 +1551,14 @@ Section next_ext.
     Forall (fun p => chain_obj_at st2 (fst p) s a branch (snd p) /\
                      enc_is st2 (fst p) (x_is_private bk) acct_child) objs ->
     Inv0 seed lk st3 -> ext st2 st3 -> new_fresh st2 st3 ->
-    (ai_enc ai <> None -> x_is_private bk = true \/ (m_locked (st_mem st1) = true /\ queue = true)) ->
     ai_static (st_disk st3) lk s a ai' ->
     let st5 := cache_acct (cache_objs st3 s branch queue objs) s a ai' in
-    Inv0 seed lk st5 /\ ext st st5 /\ new_fresh st st5 /\ st_disk st5 = st_disk st3 /\
+    Inv0 seed lk st5 /\ ext st st5 /\
+    ((ai_enc ai <> None -> x_is_private bk = true \/ (m_locked (st_mem st1) = true /\ queue = true)) ->
+     new_fresh st st5) /\ st_disk st5 = st_disk st3 /\
     m_accts (st_mem st5) = aset sa_dec (m_accts (st_mem st3)) (s, a) ai'.
   Proof.
-    intros E01 N01 I1 Hs Hc Hchild E12 L2 G2 P2 I3 E23 N23 Hq Hai' st5.
+    intros E01 N01 I1 Hs Hc Hchild E12 L2 G2 P2 I3 E23 N23 Hai' st5.
     assert (E13 : ext st1 st3) by (eapply ext_trans; eauto).
     assert (Hs3 : In (s, sch) (m_scopes (st_mem st3))) by (rewrite (ext_mscopes _ _ E13); exact Hs).
     pose proof (i_accts _ _ _ I1 _ _ _ Hc) as Hai.
@@ -1580,6 +1581,7 @@ Section next_ext.
     assert (Q5 : m_queue (st_mem st5) = m_queue (st_mem st4)) by (unfold st5; unf; reflexivity).
     splits; [exact I5|eapply ext_trans; eauto| |unfold st5; unf; exact D4|unfold st5; unf; rewrite A4; reflexivity].
     (* every new object is fresh in the final state *)
+    intros Hq.
     assert (C5 : is_some (aget sa_dec (m_accts (st_mem st5)) (s, a)) = true).
     { unfold st5. unf. rewrite aget_aset_eq. reflexivity. }
     assert (N13 : forall oid, (length (m_heap (st_mem st1)) <= oid < length (m_heap (st_mem st2)))%nat -> fresh st5 oid).
@@ -1647,6 +1649,17 @@ Proof.
   - destruct H as (-> & _). exact HN.
 Qed.
 
+Lemma N_to_nat_pos n : n <> 0 -> exists c, N.to_nat n = S c.
+Proof. intros H. destruct (N.to_nat n) eqn:E; [exfalso; apply H; lia|eauto]. Qed.
+
+Lemma range_bound next n :
+  n <= max_addresses_per_account -> next + n <= max_addresses_per_account ->
+  next + N.of_nat (N.to_nat n) <= hardened_start.
+Proof. rewrite N2Nat.id. unfold max_addresses_per_account, hardened_start. lia. Qed.
+
+Lemma next_plus next n c : N.to_nat n = S c -> next + N.of_nat c + 1 = next + n.
+Proof. intros H. assert (n = N.of_nat (S c)) as -> by (rewrite <- H, N2Nat.id; reflexivity). lia. Qed.
+
 Section next_ext2.
   Context (seed : N) (lk : bool).
 
@@ -1698,7 +1711,7 @@ Section next_ext2.
     destruct (n =? 0) eqn:Hn0; [exact Herr|]. apply N.eqb_neq in Hn0.
     (* the objects *)
     assert (Hidx : Forall (fun idx => is_hardened idx = false) (index_range next (N.to_nat n))).
-    { apply index_range_not_hardened. rewrite N2Nat.id. unfold max_addresses_per_account, hardened_start in *. lia. }
+    { apply index_range_not_hardened. apply range_bound; assumption. }
     assert (Hbks : x_skey bk = raw_child (ai_pub ai) branch) by (rewrite B1, Hak1; reflexivity).
     destruct (make_objs_post seed lk s sch a ai bk (child_num (x_skey ak)) branch (ai_fp ai) internal
                              (index_range next (N.to_nat n)) st1 I1 Hs1 S1 Hbks eq_refl Hidx)
@@ -1731,11 +1744,12 @@ Section next_ext2.
     rewrite index_range_length in L2, G2.
     destruct (issue_finish seed lk st st1 st2 st3 s sch a ai bk (child_num (x_skey ak)) branch
                            (locked st3 && negb watch_only) objs (N.to_nat n) ai'
-                           E1 N1 I1 Hs1 C1 (f_equal child_num Hak1) E2 L2 G2 P2 I3 E3 N3 Hq Hai')
+                           E1 N1 I1 Hs1 C1 (f_equal child_num Hak1) E2 L2 G2 P2 I3 E3 N3 Hai')
       as (I5 & E5 & N5 & D5 & A5).
+    specialize (N5 Hq).
     set (st5 := cache_acct (cache_objs st3 s branch (locked st3 && negb watch_only) objs) s a ai') in *.
     (* the stored next index *)
-    assert (Hcnt : exists c, N.to_nat n = S c) by (destruct (N.to_nat n) eqn:E; [lia|eauto]).
+    assert (Hcnt : exists c, N.to_nat n = S c) by (apply N_to_nat_pos; exact Hn0).
     destruct Hcnt as (c & Hc).
     assert (Hbi : (branch =? internal_branch) = internal) by (unfold branch; destruct internal; reflexivity).
     assert (Hnx : disk_next (st_disk st5) s a internal = next + n /\
@@ -1745,9 +1759,156 @@ Section next_ext2.
       rewrite D2 in X3a, X3b. split.
       - unfold disk_next at 1. rewrite X3b. rewrite Hc in S2.
         destruct (rev_objs_last objs next c S2) as (p & l & Hr & Hp). rewrite Hr, Hp.
-        assert (Hn : n = N.of_nat (S c)) by (rewrite <- Hc, N2Nat.id; reflexivity).
-        rewrite Hn. clear. lia.
+        simpl. apply next_plus. exact Hc.
       - intros s' a' i' Hne. unfold disk_next. rewrite X3a by exact Hne. reflexivity. }
     destruct Hnx as (Hnx1 & Hnx2).
-  Abort.
+    assert (E25 : ext st2 st5).
+    { eapply ext_trans; [exact E3|]. unfold st5.
+      assert (Hs3 : In (s, sch) (m_scopes (st_mem st3))) by (rewrite (ext_mscopes _ _ E3); exact Hs2).
+      assert (Hf3 : Forall (fun p => chain_obj_at st3 (fst p) s a branch (snd p) /\ field_at st3 (fst p)) objs).
+      { rewrite Forall_forall in *. intros p Hp. destruct (P2 p Hp) as (Q & Qe).
+        destruct S1 as (row & R1 & _ & R3 & _).
+        assert (Hrow2 : aget sa_dec (d_accts (st_disk st2)) (s, a) = Some row) by (rewrite (ext_accts _ _ E2); exact R1).
+        pose proof (field_of_enc_is _ _ _ _ _ _ _ _ _ Qe Q Hrow2) as Hf.
+        split; [exact (chain_obj_at_ext _ _ _ _ _ _ _ E3 Q)|]. apply (field_at_ext _ _ _ E3). apply Hf.
+        rewrite Hak1, R3. reflexivity. }
+      destruct (cache_objs_post seed lk s sch a branch (locked st3 && negb watch_only) objs st3 I3 Hs3 Hf3)
+        as (I4 & E4 & D4 & _).
+      eapply ext_trans; [exact E4|]. apply (cache_acct_post seed lk). exact I4.
+      rewrite D4. exact Hai'. }
+    splits; try assumption.
+    - (* NextOk *)
+      intros s' a' ai0 H0. rewrite A5, A3, C2 in H0. rewrite aget_aset in H0.
+      destruct (sa_dec (s', a') (s, a)) as [E|E].
+      + inversion E. subst s' a'. inversion H0. subst ai0.
+        destruct (HN1 s a ai C1) as (Y1 & Y2).
+        destruct internal; unfold ai', set_next; cbn [ai_next_ext ai_next_int].
+        * rewrite Hnx1. split; [|reflexivity]. rewrite Y1. symmetry. apply Hnx2. intros Hx. inversion Hx.
+        * rewrite Hnx1. split; [reflexivity|]. rewrite Y2. symmetry. apply Hnx2. intros Hx. inversion Hx.
+      + destruct (HN1 s' a' ai0 H0) as (Y1 & Y2). rewrite Y1, Y2.
+        split; symmetry; apply Hnx2; intros Hx; apply E; inversion Hx; reflexivity.
+    - rewrite Hnx1, Hnext. reflexivity.
+    - intros s' a' i' Hne. rewrite Hnx2 by exact Hne. rewrite D1. reflexivity.
+    - rewrite <- Hnext, <- S2. apply Forall_Forall2_fst_snd.
+      rewrite Forall_forall in *. intros p Hp. destruct (P2 p Hp) as (Q & Qe).
+      destruct S1 as (row & R1 & _ & R3 & _).
+      assert (Hrow2 : aget sa_dec (d_accts (st_disk st2)) (s, a) = Some row) by (rewrite (ext_accts _ _ E2); exact R1).
+      pose proof (field_of_enc_is _ _ _ _ _ _ _ _ _ Qe Q Hrow2) as Hf.
+      split; [exact (chain_obj_at_ext _ _ _ _ _ _ _ E25 Q)|]. apply (field_at_ext _ _ _ E25). apply Hf.
+      rewrite Hak1, R3. reflexivity.
+  Qed.
 End next_ext2.
+
+Lemma range_bound_ext next last :
+  next <= last -> last <= max_addresses_per_account ->
+  next + N.of_nat (N.to_nat (last + 1 - next)) <= hardened_start.
+Proof. intros H1 H2. rewrite N2Nat.id. unfold max_addresses_per_account, hardened_start in *. lia. Qed.
+
+Lemma ext_count next last : next <= last -> exists c, N.to_nat (last + 1 - next) = S c /\ next + N.of_nat c + 1 = last + 1.
+Proof.
+  intros H. destruct (N.to_nat (last + 1 - next)) as [|c] eqn:E; [lia|]. exists c. split; [reflexivity|].
+  assert (last + 1 - next = N.of_nat (S c)) by (rewrite <- E, N2Nat.id; reflexivity). lia.
+Qed.
+
+Section extend.
+  Context (seed : N) (lk : bool).
+
+  Lemma extend_addresses_post b st s sch a last internal :
+    Inv0 seed lk st -> m_locked (st_mem st) = lk -> In (s, sch) (m_scopes (st_mem st)) -> NextOk st ->
+    match extend_addresses b st s sch a last internal with
+    | Ok st' _ =>
+      Inv0 seed lk st' /\ ext st st' /\ (b = true -> new_fresh st st') /\ NextOk st' /\
+      disk_next (st_disk st') s a internal = N.max (disk_next (st_disk st) s a internal) (last + 1) /\
+      (forall s' a' i', (s', a', i') <> (s, a, internal) ->
+         disk_next (st_disk st') s' a' i' = disk_next (st_disk st) s' a' i')
+    | Err st' e => Inv0 seed lk st' /\ ext st st' /\ new_fresh st st' /\ NextOk st' /\ st_disk st' = st_disk st
+    end.
+  Proof.
+    intros I Hl Hs HN. unfold extend_addresses.
+    pose proof (load_acct_post' seed lk st s sch a I Hl Hs) as HL.
+    pose proof (NextOk_load seed lk st s sch a I Hl Hs HN) as HN1.
+    pose proof (load_acct_disk st s sch a) as HD.
+    destruct (load_acct st s sch a) as [st1 ai|st1 e]; cbn [bind]; simpl in HL, HD;
+      [|destruct HL as (I1 & E1 & N1); splits; assumption].
+    destruct HL as (I1 & E1 & N1 & C1 & S1 & D1 & A1 & K1 & Sm1 & Nx1).
+    assert (Hl1 : m_locked (st_mem st1) = lk) by (rewrite (ext_locked _ _ E1); exact Hl).
+    assert (Hs1 : In (s, sch) (m_scopes (st_mem st1))) by (rewrite (ext_mscopes _ _ E1); exact Hs).
+    pose proof (ai_static_wf _ _ _ _ _ _ (i_disk _ _ _ I1) S1) as Hwf.
+    assert (Herr : Inv0 seed lk st1 /\ ext st st1 /\ new_fresh st st1 /\ NextOk st1 /\ st_disk st1 = st_disk st)
+      by (splits; assumption).
+    set (watch_only := if b then negb (is_some (ai_enc ai)) else is_some (ai_priv ai)).
+    set (branch := if internal then internal_branch else external_branch).
+    set (next := if internal then ai_next_int ai else ai_next_ext ai).
+    assert (Hnext : next = disk_next (st_disk st) s a internal).
+    { destruct (HN1 s a ai C1) as (X1 & X2). unfold next. rewrite <- D1. destruct internal; assumption. }
+    destruct (last <? next) eqn:Hlast.
+    { apply N.ltb_lt in Hlast. splits; try assumption; [intros _; exact N1| |intros; rewrite D1; reflexivity].
+      rewrite D1, <- Hnext. lia. }
+    apply N.ltb_ge in Hlast.
+    destruct (max_addresses_per_account <? last) eqn:Hmax; [exact Herr|]. apply N.ltb_ge in Hmax.
+    set (use_priv := negb (locked st1) && negb watch_only).
+    destruct (if use_priv then option_map XPriv (ai_priv ai) else Some (XPub (ai_pub ai))) as [ak|] eqn:Hak;
+      [|exact Herr].
+    assert (Hakk : x_skey ak = ai_pub ai /\ x_is_private ak = (use_priv && is_some (ai_priv ai))).
+    { destruct use_priv.
+      - destruct (ai_priv ai) as [p|] eqn:Ep; [|discriminate]. simpl in Hak. inversion Hak. subst ak. simpl.
+        rewrite (Hwf p Ep). split; reflexivity.
+      - inversion Hak. subst ak. split; reflexivity. }
+    destruct Hakk as (Hak1 & Hak2).
+    destruct (x_derive ak branch) as [bk|] eqn:Hbk; [|exact Herr].
+    destruct (x_derive_spec _ _ _ Hbk) as (B1 & B2).
+    destruct (ext_count next last Hlast) as (c & Hc & Hc').
+    assert (Hidx : Forall (fun idx => is_hardened idx = false) (index_range next (N.to_nat (last + 1 - next)))).
+    { apply index_range_not_hardened. apply range_bound_ext; assumption. }
+    assert (Hbks : x_skey bk = raw_child (ai_pub ai) branch) by (rewrite B1, Hak1; reflexivity).
+    destruct (make_objs_post seed lk s sch a ai bk (child_num (ai_pub ai)) branch 0 internal
+                             (index_range next (N.to_nat (last + 1 - next))) st1 I1 Hs1 S1 Hbks eq_refl Hidx)
+      as (st2 & objs & M0 & I2 & E2 & D2 & C2 & A2 & Q2 & S2 & L2 & G2 & P2).
+    rewrite M0. cbn [bind]. cbv zeta.
+    assert (Ho2 : objs_ok s a branch st2 objs).
+    { unfold objs_ok. rewrite Forall_forall in *. intros p Hp. destruct (P2 p Hp) as (Q & _). split; [exact Q|].
+      apply Hidx. rewrite <- S2. apply in_map. exact Hp. }
+    destruct (write_only_post seed lk s a branch objs st2 I2 Ho2) as (I3 & E3 & M3 & X3).
+    set (st3 := write_only st2 s a branch objs) in *.
+    assert (N3 : new_fresh st2 st3) by (intros oid Ho; rewrite M3 in Ho; lia).
+    assert (Hlock3 : locked st3 = lk).
+    { unfold locked. rewrite (ext_locked _ _ E3), (ext_locked _ _ E2). exact Hl1. }
+    set (ai' := set_next internal (last + 1) ai).
+    assert (Hai' : ai_static (st_disk st3) lk s a ai').
+    { apply ai_static_set_next. destruct S1 as (row & R). exists row.
+      rewrite (ext_accts _ _ E3), (ext_accts _ _ E2). exact R. }
+    rewrite index_range_length in L2, G2.
+    destruct (issue_finish seed lk st st1 st2 st3 s sch a ai bk (child_num (ai_pub ai)) branch
+                           (locked st3 && negb watch_only) objs (N.to_nat (last + 1 - next)) ai'
+                           E1 N1 I1 Hs1 C1 eq_refl E2 L2 G2 P2 I3 E3 N3 Hai')
+      as (I5 & E5 & N5 & D5 & A5).
+    set (st5 := cache_acct (cache_objs st3 s branch (locked st3 && negb watch_only) objs) s a ai') in *.
+    assert (Hbi : (branch =? internal_branch) = internal) by (unfold branch; destruct internal; reflexivity).
+    assert (Hnx : disk_next (st_disk st5) s a internal = last + 1 /\
+                  (forall s' a' i', (s', a', i') <> (s, a, internal) ->
+                     disk_next (st_disk st5) s' a' i' = disk_next (st_disk st1) s' a' i')).
+    { rewrite D5. destruct X3 as (X3a & X3b). unfold next_key in X3a, X3b. rewrite Hbi in X3a, X3b.
+      rewrite D2 in X3a, X3b. split.
+      - unfold disk_next at 1. rewrite X3b. rewrite Hc in S2.
+        destruct (rev_objs_last objs next c S2) as (p & l & Hr & Hp). rewrite Hr, Hp. simpl. exact Hc'.
+      - intros s' a' i' Hne. unfold disk_next. rewrite X3a by exact Hne. reflexivity. }
+    destruct Hnx as (Hnx1 & Hnx2).
+    splits; try assumption.
+    - (* freshness needs the right watch-only test *)
+      intros Hb. apply N5. intros He. subst b. unfold watch_only. destruct (ai_enc ai) as [x|] eqn:Ee; [|contradiction].
+      simpl. rewrite Hlock3, Hl1. destruct lk eqn:Elk; [right; split; reflexivity|left].
+      rewrite B2, Hak2. unfold use_priv, locked, watch_only. rewrite Hl1, ?Ee. simpl.
+      destruct S1 as (row & _ & _ & _ & R4 & _ & _ & R7). rewrite R7, <- R4, ?Ee. reflexivity.
+    - intros s' a' ai0 H0. rewrite A5, M3, C2 in H0. rewrite aget_aset in H0.
+      destruct (sa_dec (s', a') (s, a)) as [E|E].
+      + inversion E. subst s' a'. inversion H0. subst ai0.
+        destruct (HN1 s a ai C1) as (Y1 & Y2).
+        destruct internal; unfold ai', set_next; cbn [ai_next_ext ai_next_int].
+        * rewrite Hnx1. split; [|reflexivity]. rewrite Y1. symmetry. apply Hnx2. intros Hx. inversion Hx.
+        * rewrite Hnx1. split; [reflexivity|]. rewrite Y2. symmetry. apply Hnx2. intros Hx. inversion Hx.
+      + destruct (HN1 s' a' ai0 H0) as (Y1 & Y2). rewrite Y1, Y2.
+        split; symmetry; apply Hnx2; intros Hx; apply E; inversion Hx; reflexivity.
+    - rewrite Hnx1, <- Hnext. lia.
+    - intros s' a' i' Hne. rewrite Hnx2 by exact Hne. rewrite D1. reflexivity.
+  Qed.
+End extend.
